@@ -1614,6 +1614,16 @@ impl Vm {
         // statement has only a finally block.)
         if !handler.has_catch_block() {
             self.push(exc_object);
+            // Whatever leaves the catch block - an exception, a return - passes through the
+            // statement's finally block first.
+            let mut fiber = self.active_fiber_mut();
+            fiber.exc_handlers.push(object::ExcHandler {
+                catch_ip: handler.finally_ip,
+                finally_ip: handler.finally_ip,
+                end_ip: handler.end_ip,
+                init_stack_size: handler.init_stack_size,
+                frame_count: handler.frame_count,
+            });
         } else {
             // The exception waits, off the operand stack, for the end of the finally block.
             let mut fiber = self.active_fiber_mut();
